@@ -104,6 +104,9 @@ pub fn place_buy_limit_order<R: RngCore, D: Distribution<f64>>(
     let dist = price_dist.sample(rng).abs();
     let price = mid_price - dist;
     let price = round_price_down(price, tick_size);
+    // If the price was clamped to the price limits
+    // ensure it is still on the tick grid
+    let price = price - price % (tick_size as Price).max(1);
     env.place_order(Side::Bid, trade_vol, trader_id, Some(price))
 }
 
@@ -137,6 +140,9 @@ pub fn place_sell_limit_order<R: RngCore, D: Distribution<f64>>(
     let dist = price_dist.sample(rng).abs();
     let price = mid_price + dist;
     let price = round_price_up(price, tick_size);
+    // If the price was clamped to the price limits
+    // ensure it is still on the tick grid
+    let price = price - price % (tick_size as Price).max(1);
     env.place_order(Side::Ask, trade_vol, trader_id, Some(price))
 }
 
@@ -212,6 +218,9 @@ pub fn place_buy_limit_order_market<
     let dist = price_dist.sample(rng).abs();
     let price = mid_price - dist;
     let price = round_price_down(price, tick_size);
+    // If the price was clamped to the price limits
+    // ensure it is still on the tick grid
+    let price = price - price % (tick_size as Price).max(1);
     env.place_order(asset, Side::Bid, trade_vol, trader_id, Some(price))
 }
 
@@ -253,6 +262,9 @@ pub fn place_sell_limit_order_market<
     let dist = price_dist.sample(rng).abs();
     let price = mid_price + dist;
     let price = round_price_up(price, tick_size);
+    // If the price was clamped to the price limits
+    // ensure it is still on the tick grid
+    let price = price - price % (tick_size as Price).max(1);
     env.place_order(asset, Side::Ask, trade_vol, trader_id, Some(price))
 }
 
